@@ -78,7 +78,7 @@ enum Via {
     Let,
 }
 
-fn run_batch(out: &mut CaseOut, w: usize, vals: &[i64], via: &[Via], zx_row: bool, layout_stream: &[u32], fail_at: Option<usize>, with_bits: bool) {
+fn run_batch(out: &mut CaseOut, w: usize, vals: &[i64], via: &[Via], zx_row: bool, layout_stream: &[u32], fail_at: Option<usize>, with_bits: bool, wide: bool) {
     let w2 = if w > 32 { w - 29 } else { w + 29 };
     let sigs = vec![
         Sig { name: "I".into(), bits: w, kind: Kind::In(InVal::Val(0)) },
@@ -92,6 +92,15 @@ fn run_batch(out: &mut CaseOut, w: usize, vals: &[i64], via: &[Via], zx_row: boo
     // header: input column, expected column, bidirectional in + out, virtual column, shared column
     let mut header: Vec<String> = ["I", "O", "B", "B_out", "V", "S_out"].iter().map(|s| s.to_string()).collect();
     let mut sigs = sigs;
+    if wide {
+        // 64 more one-bit outputs behind, every one expected `X` in every row: columns 64 and
+        // up exist, and a don't-care there is passed through like anywhere else
+        out.class("header>=65-columns");
+        for k in 0..64 {
+            sigs.push(Sig { name: format!("F{k}"), bits: 1, kind: Kind::Out });
+            header.push(format!("F{k}"));
+        }
+    }
     if with_bits {
         // two one-bit inputs in front, fed by one `bits(2, 2)` entry: the entries that follow sit
         // one place further left in the row than their columns do in the header
@@ -125,6 +134,9 @@ fn run_batch(out: &mut CaseOut, w: usize, vals: &[i64], via: &[Via], zx_row: boo
             }
         };
         let mut es = es;
+        if wide {
+            es.extend((0..64).map(|k| Entry::X(k % 2 == 0)));
+        }
         if with_bits {
             es.insert(0, Entry::Bits(2, Expr::lit(2)));
         }
@@ -134,6 +146,9 @@ fn run_batch(out: &mut CaseOut, w: usize, vals: &[i64], via: &[Via], zx_row: boo
     }
     if zx_row {
         let mut es = vec![Entry::Z(true), Entry::X(false), Entry::Z(false), Entry::Z(true), Entry::X(true), Entry::Z(true)];
+        if wide {
+            es.extend((0..64).map(|k| Entry::X(k % 2 == 0)));
+        }
         if with_bits {
             es.insert(0, Entry::Bits(2, Expr::lit(2)));
         }
@@ -185,6 +200,12 @@ fn run_batch(out: &mut CaseOut, w: usize, vals: &[i64], via: &[Via], zx_row: boo
         let sent = &real.log[k + 1].inputs;
         let get_in = |v: &Vec<(String, InVal, bool)>, n: &str| v.iter().find(|e| e.0 == n).map(|e| e.1);
         let get_exp = |n: &str| row.outputs.iter().find(|o| o.name == n).map(|o| o.expected);
+        if wide && !row.outputs.is_empty() {
+            if let Some(bad) = (0..64).map(|k| format!("F{k}")).find(|n| get_exp(n) != Some(ExpVal::X)) {
+                out.fail("c07:zx-not-passed-through", format!("width {w}: the expected column {bad} (one of 64 beyond the first columns) holds X; the row reports {:?}", get_exp(&bad)));
+                return;
+            }
+        }
         if with_bits && (get_in(sent, "K1") != Some(InVal::Val(1)) || get_in(sent, "K0") != Some(InVal::Val(0))) {
             out.fail("c07:bits-entry", format!("bits(2, 2) must drive K1 = 1, K0 = 0; the driver received {:?} {:?}", get_in(sent, "K1"), get_in(sent, "K0")));
             return;
@@ -266,7 +287,7 @@ impl Property for C07 {
         "C07"
     }
     fn rule(&self) -> &'static str {
-        "profile `width`: (a) exhaustive sweep of every width 1..=64 x a 40-value boundary pool (0, +-1, MIN, MAX, 2^w-1, 2^w, 2^w+1, -2^w, 2^(w-1), ...) delivered directly / through arithmetic / through let, 8 values per program, on an input column, an output's expected column, a bidirectional signal's input and `_out` column and a virtual signal's column, plus a `Z x z Z X` row, in every second batch behind a `bits(2, 2)` entry feeding two extra one-bit inputs (row entries and header columns then no longer line up one to one); (b) random (width, 64-bit value) pairs, values returning to the one two rows earlier (v, w, v), in a third of the programs the driver fails on one row's call and the caller goes on. Oracle: value & (2^w-1) in u64 (w=64 unchanged) against the input as received by the driver, row.inputs and the expected values; virtual column keeps 64 bits. Non-trivial: w >= 33 or the value has bits above w; distinct by (width, values, path)."
+        "profile `width`: (a) exhaustive sweep of every width 1..=64 x a 40-value boundary pool (0, +-1, MIN, MAX, 2^w-1, 2^w, 2^w+1, -2^w, 2^(w-1), ...) delivered directly / through arithmetic / through let, 8 values per program, on an input column, an output's expected column, a bidirectional signal's input and `_out` column and a virtual signal's column, plus a `Z x z Z X` row, in every second batch behind a `bits(2, 2)` entry feeding two extra one-bit inputs (row entries and header columns then no longer line up one to one), in every fifth batch with 64 more one-bit outputs behind that are expected `X` in every row (columns 64 and up); (b) random (width, 64-bit value) pairs, values returning to the one two rows earlier (v, w, v), in a third of the programs the driver fails on one row's call and the caller goes on. Oracle: value & (2^w-1) in u64 (w=64 unchanged) against the input as received by the driver, row.inputs and the expected values; virtual column keeps 64 bits. Non-trivial: w >= 33 or the value has bits above w; distinct by (width, values, path)."
     }
     fn cases(&self, tier: Tier) -> u64 {
         match tier {
@@ -289,13 +310,14 @@ impl Property for C07 {
         v
     }
     fn required_classes(&self) -> Vec<&'static str> {
-        vec!["width=64", "width=63", "width=1", "width>=33", "bits-above-width", "negative", "row-after-driver-failure", "bits-entry-before-the-values"]
+        vec!["width=64", "width=63", "width=1", "width>=33", "bits-above-width", "negative", "row-after-driver-failure", "bits-entry-before-the-values", "header>=65-columns"]
     }
     fn run(&self, s: &Streams) -> CaseOut {
         let mut out = CaseOut::new();
         let mut ch = Ch::new(&s[0]);
         let mut fail_at = None;
         let with_bits;
+        let wide;
         let (w, vals, via, zx) = if s[0].first() == Some(&SWEEP_MAGIC) {
             ch.raw();
             let w = (ch.raw() as usize).clamp(1, 64);
@@ -304,6 +326,7 @@ impl Property for C07 {
             let p = pool(w);
             out.class("sweep");
             with_bits = b % 2 == 1;
+            wide = b == 2;
             (w, p[b * BATCH..(b + 1) * BATCH].to_vec(), vec![via], b == 0)
         } else {
             let w = match ch.weighted(&[6, 2, 1, 1, 1]) {
@@ -344,6 +367,7 @@ impl Property for C07 {
                 fail_at = Some(1 + ch.upto(n));
             }
             with_bits = ch.chance(1, 3);
+            wide = ch.chance(1, 8);
             (w, vals, via, zx)
         };
         out.class_if(w == 64, "width=64");
@@ -354,7 +378,7 @@ impl Property for C07 {
         out.class_if(above, "bits-above-width");
         out.class_if(vals.iter().any(|v| *v < 0), "negative");
         out.nontrivial = w >= 33 || above;
-        run_batch(&mut out, w, &vals, &via, zx, &s[1], fail_at, with_bits);
+        run_batch(&mut out, w, &vals, &via, zx, &s[1], fail_at, with_bits, wide);
         out
     }
 }
